@@ -71,7 +71,7 @@ CLAIMS['C01'] = dict(
     technique='TLA+ definitional oracle evaluated by TLC per recorded input; implementation output validated against it', ref='12.4')
 CLAIMS['C02'] = dict(
     text=("Same oracle, other inclusion: every FASTA sequence must lie in Sound (as Complete, but with the permissive adjacency rule, open-ended tail fragments, all nested variants, and W>F images of every product of a variant haplotype). In addition inputs are re-run with binding complexity limits (max-variants-per-node 0/1/2, additional-variants-per-misc 0/1) and with injected TimeoutErrors that walk caller_reducer's retry ladder (guarded hook): the outputs must stay inside the unlimited output, i.e. limits and retries only remove peptides."),
-    note=('As C01; retries are provoked by the guarded timeout hook, not by real timeouts; circRNA backbones: clause circ_peptides_sound of CircTrace (every CIRC-labelled peptide is a product of the circle, carrying one compatible subset of the host transcript's small variants in every copy, read as four copies; incl. tiny circles whose start codon a variant destroys and one pinned regression world); fusion soundness incl. small variants is decided in C15 (peptides_from_fused_sequence).'),
+    note=('As C01; retries are provoked by the guarded timeout hook, not by real timeouts; circRNA backbones: clause circ_peptides_sound of CircTrace (every CIRC-labelled peptide is a product of the circle, carrying one compatible subset of the host transcript small variants in every copy, read as four copies; incl. tiny circles whose start codon a variant destroys and one pinned regression world); fusion soundness incl. small variants is decided in C15 (peptides_from_fused_sequence).'),
     technique='TLA+ definitional oracle + paired runs under restricted limits', ref='12.4')
 CLAIMS['C04'] = dict(
     text=("OutputTrace.tla: for the FASTA and peptide table of every callVariant run of the C01 campaign and the FASTA of "
